@@ -250,7 +250,9 @@ func MakeHole(ctx context.Context, listenConn *net.UDPConn, m *msg.NatHoleResp, 
 		lConn *net.UDPConn
 		raddr *net.UDPAddr
 	}
-	resultCh := make(chan result)
+	// capacity 1: a reader that finds its detect message already queued finishes before this goroutine reaches the
+	// select below; with an unbuffered channel its result was dropped and its connection closed
+	resultCh := make(chan result, 1)
 	for _, conn := range listenConns {
 		go func(lConn *net.UDPConn) {
 			addr, err := waitDetectMessage(ctx, lConn, m.Sid, key, timeout, m.DetectBehavior.Role)
